@@ -1,5 +1,15 @@
+-- Root of the JediVerif library: every module, so that `lake build` checks every theorem.
 import JediVerif.Spec.Basic
 import JediVerif.Spec.Tower
 import JediVerif.Spec.Curve
 import JediVerif.Spec.Pairing
+import JediVerif.Spec.Rand
+import JediVerif.Impl.Types
 import JediVerif.Gen.Consts
+import JediVerif.Gen.TowerGen
+import JediVerif.Gen.TowerThms
+import JediVerif.Proofs.Attr
+import JediVerif.Proofs.TowerRing
+import JediVerif.Properties.C04
+import JediVerif.Properties.C18
+import JediVerif.Driver.Main
